@@ -1,10 +1,89 @@
 /- driver ops for property C19 (model side of the correspondence) -/
 import Rsa.Core.Wire
+import Rsa.Core.Searchlight
 
-open Lean Rsa.Wire
+open Lean Rsa.Wire Rsa.Searchlight
 
 namespace Rsa.Drv.C19
 
-def handle : Handler := fun _op _j => none
+def asShape (j : Json) : R Shape := do
+  match ← asList asNat j with
+  | [a, b, c] => pure (a, b, c)
+  | _ => throw "shape needs three entries"
+
+def asCtr (j : Json) : R Ctr := do
+  match ← asList asInt j with
+  | [a, b, c] => pure (a, b, c)
+  | _ => throw "center needs three entries"
+
+def ofVox (v : Vox) : Json := ofList ofNat [v.1, v.2.1, v.2.2]
+
+/-- `_get_searchlight_neighbors` : rows (x, y, z) in the order produced -/
+def neighbors (j : Json) : R Json := do
+  let s ← fld j "shape" >>= asShape
+  let c ← fld j "center" >>= asCtr
+  let r ← fld j "radius" >>= asRat
+  let algo := neighborsAlgo s c r
+  let spec := neighborsSpec s c r
+  pure (obj [("algo", ofList ofVox algo), ("spec", ofList ofVox spec)])
+
+/-- `get_volume_searchlight` on a mask given by its non-zero flags in C order -/
+def volume (j : Json) : R Json := do
+  let s ← fld j "shape" >>= asShape
+  let flags ← fld j "mask" >>= asList asNat
+  let r ← fld j "radius" >>= asRat
+  let thr ← fld j "threshold" >>= asRat
+  if flags.length ≠ size s then throw "mask length does not match shape"
+  let arr := flags.toArray
+  let m : Vox → Bool := fun v => arr.getD (ravel s v) 0 != 0
+  let (cs, ns) := volumeSearchlight s m r thr
+  pure (obj [("centers", ofList ofNat cs), ("neighbors", ofList (ofList ofNat) ns)])
+
+def rdmsWith {α : Type} [Zero α] (dist : List α → List α → α) (rd : Json → R α) (wr : α → Json)
+    [Add α] [Sub α] [Mul α] [Div α] [One α] [NatCast α] (j : Json) : R Json := do
+  let data ← fld j "data" >>= asList (asList rd)
+  let centers ← fld j "centers" >>= asList asNat
+  let nbs ← fld j "neighbors" >>= asList (asList asNat)
+  let ev ← fld j "events" >>= asList asInt
+  let pts ← fld j "pts" >>= asList asNat
+  if nbs.length ≠ centers.length then throw "centers and neighbors differ in length"
+  let rows := slRdms (calcRdm dist ev) (rdmWidth ev) data centers nbs pts
+  pure (obj [("rdm", ofList (ofList wr) rows), ("voxel_index", ofList ofNat centers),
+             ("chunked", Json.bool (decide (centers.length > chunkLimit)))])
+
+/-- `get_searchlight_RDMs` -/
+def rdms (j : Json) : R Json := do
+  let method ← fld j "method" >>= asStr
+  match method with
+  | "euclidean" | "mahalanobis" => rdmsWith (α := Rat) dEuclid asRat ofRat j
+  | "correlation" => rdmsWith (α := Float) dCorr asFloat ofFloat j
+  | "poisson" => rdmsWith (α := Float) dPoisson asFloat ofFloat j
+  | "euclidean_float" => rdmsWith (α := Float) dEuclid asFloat ofFloat j
+  | m => throw s!"method {m} is not modelled"
+
+/-- `evaluate_models_searchlight`: task results (opaque tokens, one per centre, in centre
+    order) collected while the tasks complete in the order `sched` -/
+def collectOp (j : Json) : R Json := do
+  let tokens ← fld j "tokens" >>= asArr
+  let sched ← fld j "sched" >>= asList asNat
+  let arr := tokens.toArray
+  let res := collect tokens.length (fun i => arr.getD i Json.null) sched
+  pure (ofList (ofOpt id) res)
+
+/-- `np.split(np.arange(n), pts)` and the exact-arithmetic linspace points -/
+def splitOp (j : Json) : R Json := do
+  let n ← fld j "n" >>= asNat
+  let pts ← asOpt (asList asNat) (fldD j "pts" Json.null)
+  let p := pts.getD (floorPts n)
+  pure (obj [("pts", ofList ofNat p), ("chunks", ofList (ofList ofNat) (splitIdx n p))])
+
+def handle : Handler := fun op j =>
+  match op with
+  | "c19.neighbors" => some (neighbors j)
+  | "c19.volume" => some (volume j)
+  | "c19.rdms" => some (rdms j)
+  | "c19.collect" => some (collectOp j)
+  | "c19.split" => some (splitOp j)
+  | _ => none
 
 end Rsa.Drv.C19
